@@ -282,14 +282,79 @@ pub fn run(cfg: &Cfg) -> Report {
         total.count(&format!("cases_class_{}", class), n);
         total.merge(rep);
     }
+    // class 7: the token as `Connector::connect` produces it over TLS, for accounts configured by password or by NT hash
+    // (the password string then being empty or unrelated), judged by the reference CredSSP server
+    if cfg.wants(7) {
+        crate::tls::prewarm(false);
+        let n = cfg.n(400, 20_000);
+        let rep = par_run(cfg, n, 4, |idx, rep| {
+            mon::begin_case(15, 7, idx, seed);
+            connector_case(idx, seed, rep);
+        });
+        total.count("cases_class_7_connector", n);
+        total.merge(rep);
+    }
     total
+}
+
+fn connector_case(idx: u64, seed: u64, rep: &mut Report) {
+    use crate::client::ConnCfg;
+    rep.eval();
+    let mut r = Rng::derive(seed, "C15-connector", 7, idx);
+    let real_password = client::unicode_string(&mut r, 20);
+    let mut c = ConnCfg::default();
+    c.domain = client::ascii_name(&mut r, 10);
+    c.user = client::ascii_name(&mut r, 10);
+    c.nla = true;
+    let by_hash = idx % 2 == 0;
+    if by_hash {
+        c.hash = Some(ntlm::nt_hash(&real_password).to_vec());
+        c.password = if r.chance(1, 2) { String::new() } else { "not-the-password".to_string() };
+    } else {
+        c.password = real_password.clone();
+    }
+    let mut p = crate::refs::proto::Profile::default();
+    p.selected_protocol = 2;
+    let d = crate::server::Duplex::new(p);
+    let mut nr = Rng::derive(seed, "C15-connector-nla", 7, idx);
+    let mut nla = crate::gen::nla_cfg(&mut nr, &c);
+    nla.account = Account { domain: c.domain.clone(), user: c.user.clone(), nt_hash: ntlm::nt_hash(&real_password) };
+    d.with(|s| {
+        s.tls_identity = 2;
+        s.nla_cfg = nla;
+    });
+    let probe = d.clone();
+    let cfgc = c.clone();
+    let res = mon::guarded(move || crate::client::connect_real(&cfgc, d.clone()).map(|_| ()).map_err(|e| client::err_kind(&e)));
+    let rp = json!({"connector_case": [idx, seed]});
+    match res {
+        Err(pn) => rep.violation(format!("C15/connector/{}", pn.sig()), format!("{} at {}:{}", pn.msg, pn.file, pn.line), rp),
+        Ok(_) => {
+            let auth = probe.with(|s| s.nla_log.auth.clone());
+            match auth {
+                Some(Ok(_)) => rep.hist("accepted"),
+                Some(Err(e)) if e.contains("payload starts at offset") => rep.hist("no-version-layout(known)"),
+                Some(Err(e)) => rep.violation(format!("C15/connector-{}/rejected:{}", if by_hash { "hash" } else { "password" }, mon::normalise(&e)), format!("the reference CredSSP server rejects the AUTHENTICATE token of a Connector configured by {}: {}", if by_hash { "NT hash" } else { "password" }, e), rp),
+                None => rep.inconclusive("the AUTHENTICATE round was not reached"),
+            }
+            rep.nontrivial(idx ^ 0xC15C);
+        }
+    }
 }
 
 pub fn replay(_cfg: &Cfg, v: &Value) -> Report {
     let mut rep = Report::new();
     mon::set_quiet(false);
+    if let Some(a) = v.get("connector_case").and_then(|a| a.as_array()) {
+        connector_case(a[0].as_u64().unwrap_or(0), a[1].as_u64().unwrap_or(1), &mut rep);
+        return rep;
+    }
     let c = if let Some(a) = v.get("death_case") {
         let a: Vec<u64> = a.as_array().unwrap().iter().map(|x| x.as_u64().unwrap()).collect();
+        if a[1] == 7 {
+            connector_case(a[2], a[3], &mut rep);
+            return rep;
+        }
         make_case(a[1], a[2], a[3])
     } else {
         Case::from_json(v)
